@@ -124,6 +124,7 @@ func c18Expr(c *fw.Ctx, tree *enode, si int) {
 	for pim, pre := range append(append([][][2]interface{}{}, c18Prepop...), c18Prepop...) {
 		pi, viaCreate := pim%len(c18Prepop), pim >= len(c18Prepop)
 		calc := calculator.NewExpressionCalculator()
+		calc.SetAutoVariables(true) // (the statement is conditional on it; which way a new object starts is not pinned)
 		var target variables.IVariableCollection = calc.DefaultVariables()
 		if viaCreate {
 			calc.SetAutoVariables(false)
@@ -320,6 +321,7 @@ func c18Template(c *fw.Ctx, seq []int) {
 	}
 	// auto variables: one entry per name (case-insensitively), existing entries kept
 	t := mustache.NewMustacheTemplate()
+	t.SetAutoVariables(true)
 	t.SetDefaultVariables(map[string]string{"A": "keep"})
 	if err := t.SetTemplate(text); err != nil {
 		c.Violation("template-rejected", "SetTemplate(%q) fails: %v", text, err)
@@ -381,6 +383,7 @@ func c18Template(c *fw.Ctx, seq []int) {
 	// pre-existing entries with EMPTY values, and the same template set again on the same instance
 	// in another letter case: still exactly one entry per name
 	t2 := mustache.NewMustacheTemplate()
+	t2.SetAutoVariables(true)
 	t2.SetDefaultVariables(map[string]string{"A": "", "NAME": ""})
 	for round, tx := range []string{text, strings.ToUpper(text), text} {
 		if strings.Contains(tx, "{{#IF ") || strings.Contains(tx, "{{#UNLESS ") || strings.Contains(tx, "{{/IF}}") || strings.Contains(tx, "{{/UNLESS}}") {
@@ -726,9 +729,10 @@ func init() {
 			return []fw.Space{
 				{Name: "keyword-list-edited", N: 2, Run: func(c *fw.Ctx, i int64) {
 					// parser and calculator built under the default keyword list; LIKE is then dropped from the
-					// exported list: "like" is an identifier in variable position and must be discovered
+					// exported list: where "like + 1" is accepted, "like" is an identifier in variable position and must be discovered
 					p := parsers.NewExpressionParser()
 					calc := calculator.NewExpressionCalculator()
+					calc.SetAutoVariables(true)
 					p.ParseString("a like b")
 					calc.SetExpression("a + 1")
 					saved := ctok18.Keywords
@@ -757,7 +761,9 @@ func init() {
 							has = true
 						}
 					}
-					if err != nil || !has || (i == 0 && len(names) != 1) {
+					// which list is in force for an object built earlier - the one at its construction or the
+					// current one - is not pinned: under the earlier list the text is rejected
+					if err == nil && (!has || (i == 0 && len(names) != 1)) {
 						c.Violation("identifier-not-discovered-after-keyword-list-edit", "object built before LIKE was dropped from the exported keyword list: \"like + 1\" gives error %v and variables %q; the identifier like is in variable position", err, names)
 					}
 				}, Repr: func(i int64) string { return "exported keyword list edited after construction, then \"like + 1\"" }},
